@@ -32,7 +32,8 @@ PRIMS = {
     'ByteArray': 'base64Binary',
 }
 INT_KINDS = [k for k, v in PRIMS.items() if v in lex.INT_BOUNDS]
-PATTERNS = ['[a-c]+', 'x[0-9]{2,4}', '(ab|cd)*e?', '[A-Z][a-z]{0,5}']
+PATTERNS = ['[a-c]+', 'x[0-9]{2,4}', '(ab|cd)*e?', '[A-Z][a-z]{0,5}', 'a|ab|abc', 'no|none|[0-9]|[0-9]{3}']
+# (the last two: alternatives one of which is a prefix of another - a leftmost-alternative matcher must still try the others)
 
 
 def eqkind(kind):
@@ -183,6 +184,9 @@ def rand_universe(rng, o=None, uid=0):
                     fields.append([fn, {'attr': at_}])
                 else:
                     fields.append([fn, rand_tspec(rng, o, [t for t in types if True], o.max_depth - 1)])
+                    if getattr(o, 'sub_names', False) and rng.random() < .3:
+                        # the public name (the one in every document and in the IR) differs from the name of the Python attribute
+                        fields[-1][1]['py'] = 'py_' + fn
         if getattr(o, 'choice_groups', False) and not has_xmldata and rng.random() < .5:
             # members that form an xs:choice: at most one of them carries a value
             cands = [f for f in fields if 'attr' not in f[1] and 'xmldata' not in f[1]]
@@ -296,12 +300,14 @@ class Built(object):
         self._build()
 
     # -- type construction
-    def spyne_type(self, t, field=False):
+    def spyne_type(self, t, field=False, sub_name=None):
         from spyne.model import primitive as P
         from spyne.model.binary import ByteArray
         from spyne.model.complex import Array, XmlAttribute, XmlData
         from spyne.model.enum import Enum
         kw = {}
+        if sub_name is not None:
+            kw['sub_name'] = sub_name
         if 'min_occurs' in t:
             kw['min_occurs'] = t['min_occurs']
         if 'nillable' in t:
@@ -331,7 +337,7 @@ class Built(object):
         if 'seq' in t:
             inner = self.spyne_type(t['seq'])
             mx = t['max']
-            return inner.customize(max_occurs=decimal.Decimal('inf') if mx == 'unbounded' else mx)
+            return inner.customize(max_occurs=decimal.Decimal('inf') if mx == 'unbounded' else mx, **({'sub_name': sub_name} if sub_name else {}))
         if 'attr' in t:
             return XmlAttribute(self.spyne_type(t['attr']))
         if 'xmldata' in t:
@@ -348,7 +354,8 @@ class Built(object):
                 continue                    # grow(): declared at an earlier stage
             base = self.classes[td['base']] if td['base'] else ComplexModel
             d = {'__namespace__': td['ns'], '__type_name__': td['name']}
-            d['_type_info'] = [(fn, self.spyne_type(ft, field=True)) for fn, ft in td['fields']]
+            d['_type_info'] = [(ft.get('py', fn), self.spyne_type(ft, field=True, sub_name=fn if 'py' in ft else None))
+                               for fn, ft in td['fields']]
             self.classes[td['name']] = ComplexModelMeta(str('%su%d' % (td['name'], uid)), (base,), d)
         from spyne.model.fault import Fault
         self.faults = {}
@@ -433,7 +440,7 @@ class Built(object):
             memo[(id(v), td['name'])] = inst
             for fn, ft in self.all_fields(td['name']):
                 if fn in v:
-                    setattr(inst, fn, self.to_spyne(ft, v[fn], memo))
+                    setattr(inst, ft.get('py', fn), self.to_spyne(ft, v[fn], memo))
             return inst
         if 'array' in t:
             return [self.to_spyne(t['array'], x, memo) for x in v]
@@ -464,7 +471,7 @@ class Built(object):
                 return {'__foreign__': repr(type(o))}
             out = {'__class__': clsname}
             for fn, ft in self.all_fields(clsname):
-                out[fn] = self.from_spyne(ft, getattr(o, fn, None))
+                out[fn] = self.from_spyne(ft, getattr(o, ft.get('py', fn), None))
             return out
         if 'array' in t:
             try:
@@ -645,6 +652,10 @@ def _from_pattern(rng, p):
         return 'x' + ''.join(rng.choice('0123456789') for _ in range(rng.randint(2, 4)))
     if p == '(ab|cd)*e?':
         return ''.join(rng.choice(('ab', 'cd')) for _ in range(rng.randint(0, 4))) + rng.choice(('', 'e'))
+    if p == 'a|ab|abc':
+        return rng.choice(('a', 'ab', 'abc'))
+    if p == 'no|none|[0-9]|[0-9]{3}':
+        return rng.choice(('no', 'none', str(rng.randint(0, 9)), '%03d' % rng.randint(0, 999)))
     if p == '[A-Z][a-z]{0,5}':
         return rng.choice('ABCXYZ') + ''.join(rng.choice('abcxyz') for _ in range(rng.randint(0, 5)))
     raise KeyError(p)
